@@ -12,4 +12,3 @@ var reNumc = regexp.MustCompile(`[0-9]+`)
 
 func c15Handle(raw json.RawMessage) any { return nil }
 func c19Handle(raw json.RawMessage) any { return nil }
-func c08Handle(raw json.RawMessage) any { return nil }
